@@ -170,7 +170,10 @@ func (m *c11Model) visible(dir string) map[string]string {
 		if v := m.ent[p]; strings.HasPrefix(v, "-> $ROOT/") && !m.exists(strings.TrimPrefix(v, "-> $ROOT/")) {
 			continue // an alias whose target is gone: whether it is listed is not specified
 		}
-		out[strings.ReplaceAll(name, ".incomplete", "")] = p
+		if m.ent[p] != "<dir>" { // a partial upload is listed under its final name
+			name = strings.TrimSuffix(name, ".incomplete")
+		}
+		out[name] = p
 	}
 	return out
 }
@@ -525,6 +528,7 @@ func c11Alphabet() []string {
 	for _, d := range []string{"d", "e"} {
 		a = append(a, "rename|"+d+"|dd", "move|"+d+"|e", "move|"+d+"|d", "del|"+d, "comment|"+d)
 	}
+	a = append(a, "rename|a.txt|my.incomplete.txt", "mkdir|x.incomplete", "rename|e/a.txt|pic.jpg", "comment|my.incomplete.txt", "del|my.incomplete.txt")
 	a = append(a, "del|p.bin", "mkdir|dé/new", "mkdir|dé/in2.txt", "del|dé/in2.txt", "rename|dé/in2.txt|r2.txt", "move|a.txt|dé", "move|dé/in2.txt|e", "comment|dé/in2.txt", "alias|a.txt|dé", "rename|dé|dd", "move|dé|e", "del|dé", "mkdir|zé/sub")
 	a = append(a, "mkdir|new", "mkdir|a.txt", "mkdir|d", "mkdir|d/new", "mkdir|zé", "alias|a.txt|e", "alias|d|e", "alias|q.sit|d",
 		"rename|n1.txt|a.zip", "rename|a.txt|a.zip", "rename|i.dat|i.txt",
